@@ -1,5 +1,5 @@
 // mergetool: flat choices of terminals through the real ast.Optimize (called from /repo's working tree).
-// One line per choice:  <alternatives as written> => <alternatives left by the optimizer>
+// One line per choice or sequence:  C|S <alternatives / items as written> => <alternatives / items left by the optimizer>
 // alternative:  L:<ic>:<runes>   C:<ic>:<inv>:<chars>:<ranges>:<classes, hex>   A
 // (runes in decimal, comma separated; AST values, i.e. before the builder lower-cases them).
 // A result that is not a choice (one alternative left, put in place of the choice) is printed as one alternative.
@@ -48,6 +48,13 @@ func show(e ast.Expression) string {
 }
 
 func showAll(e ast.Expression) string {
+	if c, ok := e.(*ast.SeqExpr); ok {
+		p := make([]string, len(c.Exprs))
+		for i, a := range c.Exprs {
+			p[i] = show(a)
+		}
+		return strings.Join(p, " ")
+	}
 	if c, ok := e.(*ast.ChoiceExpr); ok {
 		p := make([]string, len(c.Alternatives))
 		for i, a := range c.Alternatives {
@@ -108,15 +115,28 @@ func main() {
 	r := rand.New(rand.NewSource(*seed*7919 + 13))
 	for i := 0; i < *n; i++ {
 		p := ast.Pos{}
-		ch := ast.NewChoiceExpr(p)
 		ic := r.Intn(4) == 0
-		for k := 2 + r.Intn(6); k > 0; k-- {
-			ch.Alternatives = append(ch.Alternatives, genAlt(r, ic))
+		var top ast.Expression
+		kind := "C "
+		if r.Intn(5) < 2 {
+			// the items of a sequence: adjacent literals are concatenated
+			kind = "S "
+			sq := ast.NewSeqExpr(p)
+			for k := 2 + r.Intn(6); k > 0; k-- {
+				sq.Exprs = append(sq.Exprs, genAlt(r, ic))
+			}
+			top = sq
+		} else {
+			ch := ast.NewChoiceExpr(p)
+			for k := 2 + r.Intn(6); k > 0; k-- {
+				ch.Alternatives = append(ch.Alternatives, genAlt(r, ic))
+			}
+			top = ch
 		}
-		before := showAll(ch)
+		before := kind + showAll(top)
 		g := ast.NewGrammar(p)
 		ru := ast.NewRule(p, ast.NewIdentifier(p, "S"))
-		ru.Expr = ch
+		ru.Expr = top
 		g.Rules = append(g.Rules, ru)
 		msg := func() (msg string) {
 			defer func() {
